@@ -7,7 +7,7 @@ from typing import Optional
 from ..prog import AnalysisError, FuncInfo, call_name, short, stmt_head, unparse, walk_no_nested
 from ..util import assignments_to, atomic_guards, guards_at
 
-EXCLUDED = ("sigma.validators", "sigma.validation", "sigma.plugins", "sigma.data", "sigma.cli")
+EXCLUDED = ("sigma.plugins", "sigma.data", "sigma.cli")
 INSENSITIVE_CONSUMERS = {"sorted", "set", "frozenset", "any", "all", "len", "min", "max", "sum", "bool", "isinstance",
                          "Counter", "dict.fromkeys"}
 COMMUTATIVE_METHODS = {"add", "update", "discard", "remove", "set_pipeline", "_clear_pipeline", "add_applied_processing_item",
@@ -43,6 +43,12 @@ def _is_setish(ctx, fi: FuncInfo, e: ast.AST) -> bool:
     if isinstance(e, ast.Call) and isinstance(e.func, ast.Attribute) and e.func.attr in ("union", "intersection", "difference", "symmetric_difference", "copy") and _is_setish(ctx, fi, e.func.value):
         return True
     t = ctx.types.is_set_type(fi.module, e)
+    if t is None and isinstance(e, ast.Name):
+        # mypy records no position for expressions inside f-strings: use the type of another occurrence of the same local
+        for other in walk_no_nested(fi.node):
+            if isinstance(other, ast.Name) and other.id == e.id and other is not e:
+                if ctx.types.is_set_type(fi.module, other):
+                    return True
     return bool(t)
 
 
@@ -137,6 +143,7 @@ def run(ctx) -> None:
     r2_random_sources(ctx)
     r3_sorted_renderers(ctx)
     r4_random_names_not_captured(ctx)
+    r5_message_text_of_objects(ctx)
 
 
 def r4_random_names_not_captured(ctx) -> None:
@@ -306,6 +313,8 @@ def r2_random_sources(ctx) -> None:
             quoting = [k for k in (".explain(", ".markInputline(", ".mark_input_line(", ".line", ".pstr", "self.condition") if k in txt]
             if quoting:
                 r.violation("C20.R2", q, short(rs, 120), f"the error message quotes the condition text ({quoting[0]}): conditions are parsed after filters and add_condition rewrote them with random identifiers, so the error record of a failing rule differs from run to run", loc)
+            elif any(isinstance(x, ast.FormattedValue) and unparse(x.value).strip() in ("self.identifier", "self.pattern") for x in ast.walk(rs.exc)):
+                r.violation("C20.R2", q, short(rs, 120), "the error message quotes an identifier/selector token of the condition: filter conditions are rewritten with the random '_filt_<10 letters>_' prefix before they are parsed, so an identifier the filter does not define is reported under a name that differs from run to run", loc)
             elif "ParseException" in unparse(prog.enclosing_stmt(rs)) or "str(e)" in txt:
                 r.ok("C20.R2", q, f"parse error reported as {short(rs.exc, 60)} (position and expectation, not the condition text)", loc)
     # conversion code must not read the places random names live in
@@ -350,3 +359,172 @@ def r3_sorted_renderers(ctx) -> None:
     else:
         r.violation("C20.R3", gi.qual, "content.append(str(sorted(transformation_dict.items())))", "generated item identifier no longer hashes a canonical (sorted) rendering", gi.loc)
     r.floor("C20.R3", 2)
+
+
+# ---------------------------------------------------------------------------------------------------------------------
+SET_ANN = ("set[", "Set[", "frozenset[", "FrozenSet[", "AbstractSet[", "MutableSet[")
+
+
+def _field_opt(st: ast.AnnAssign, name: str) -> Optional[bool]:
+    v = st.value
+    if isinstance(v, ast.Call) and call_name(v).split(".")[-1] == "field":
+        for k in v.keywords:
+            if k.arg == name and isinstance(k.value, ast.Constant):
+                return bool(k.value.value)
+    return None
+
+
+def _ann_is_set(st: ast.AnnAssign) -> bool:
+    a = unparse(st.annotation).replace(" ", "").replace('"', "").replace("'", "")
+    if a in ("set", "frozenset", "Set", "FrozenSet") or a.startswith(SET_ANN) or any(("|" + k) in a or ("[" + k) in a for k in SET_ANN):
+        return True
+    v = st.value
+    if isinstance(v, ast.Call) and call_name(v).split(".")[-1] == "field":
+        for k in v.keywords:
+            if k.arg == "default_factory" and unparse(k.value) in ("set", "frozenset"):
+                return True
+            if k.arg == "default_factory" and "defaultdict" in unparse(k.value) and "set" in unparse(k.value):
+                return True   # dict of sets
+    return False
+
+
+def _text_function(prog, cq: str, use_repr: bool):
+    """What produces the text of an instance: ('generated', owner class) for a dataclass-generated __repr__,
+    ('method', FuncInfo) for a source __str__/__repr__, ('default', None) for object.__repr__, ('enum'...)"""
+    names = ("__repr__",) if use_repr else ("__str__", "__repr__")
+    for want in names:
+        for b in prog.mro(cq):
+            bi = prog.classes.get(b)
+            if bi is None:
+                continue
+            if want in bi.methods:
+                return "method", bi.methods[want]
+            if want == "__repr__" and bi.is_dataclass and not any("repr=False" in d.replace(" ", "") for d in bi.decorators):
+                return "generated", bi
+            if any(x.split(".")[-1] in ("Enum", "IntEnum", "Flag", "str", "int", "Exception", "ValueError", "UserDict", "dict", "list") for x in bi.bases):
+                return "builtin", bi
+    return "default", None
+
+
+def _all_class_names(types, t) -> list[str]:
+    """Class names in a mypy type, including the type arguments of containers."""
+    out: list[str] = []
+    seen = 0
+    work = [t]
+    while work and seen < 200:
+        seen += 1
+        x = work.pop()
+        for i in types.instances(x):
+            out.append(i.type.fullname)
+            work.extend(getattr(i, "args", ()) or ())
+    return out
+
+
+def r5_message_text_of_objects(ctx) -> None:
+    """Error records are part of the output: every object whose text is interpolated into an exception message must have a
+    hash-seed independent text. Roots: typed expressions formatted inside `raise` statements and in the __str__ of the
+    exception classes; closure: the generated repr of a dataclass shows every field not declared repr=False, recursively
+    (declared field types and all their subclasses)."""
+    r, prog, types = ctx.r, ctx.prog, ctx.types
+    r.rule("C20.R5", "no object whose text is interpolated into an error message shows a set (or a pipeline back-pointer) through a generated dataclass repr: such fields are declared repr=False or the class renders them sorted")
+    by_simple: dict[str, list[str]] = {}
+    for cq in prog.classes:
+        by_simple.setdefault(cq.rsplit(".", 1)[-1], []).append(cq)
+    roots: dict[tuple[str, bool], str] = {}   # (class, use_repr) -> first site
+
+    def add_root(m, e: ast.AST, use_repr: bool, site: str) -> None:
+        t = types.type_of(m, e)
+        if t is None:
+            return
+        for cn in _all_class_names(types, t):
+            if cn in prog.classes:
+                roots.setdefault((cn, use_repr), site)
+
+    def scan_formatted(fi: FuncInfo, node: ast.AST, why: str) -> int:
+        n = 0
+        for x in ast.walk(node):
+            if isinstance(x, ast.FormattedValue):
+                add_root(fi.module, x.value, x.conversion == ord("r"), f"{fi.module.relpath}:{x.lineno} {why}")
+                n += 1
+            elif isinstance(x, ast.Call) and call_name(x) in ("str", "repr") and x.args:
+                add_root(fi.module, x.args[0], call_name(x) == "repr", f"{fi.module.relpath}:{x.lineno} {why}")
+                n += 1
+            elif isinstance(x, ast.BinOp) and isinstance(x.op, ast.Mod) and isinstance(x.left, ast.Constant) and isinstance(x.left.value, str):
+                for a in (x.right.elts if isinstance(x.right, ast.Tuple) else [x.right]):
+                    add_root(fi.module, a, False, f"{fi.module.relpath}:{x.lineno} {why}")
+                    n += 1
+        return n
+
+    n_sites = 0
+    for q, fi in sorted(prog.funcs.items()):
+        if fi.module.name.startswith(EXCLUDED):
+            continue
+        for rs in (x for x in walk_no_nested(fi.node) if isinstance(x, ast.Raise) and x.exc is not None):
+            n_sites += scan_formatted(fi, rs.exc, f"raise in {q}")
+        # messages of the exception classes themselves
+        if fi.cls is not None and fi.name in ("__str__", "__repr__") and prog.is_subclass(fi.cls.qual, "sigma.exceptions.SigmaError"):
+            n_sites += scan_formatted(fi, fi.node, f"{q}")
+    r.analysed["C20.message_interpolation_sites"] = n_sites
+    # closure
+    seen: set[tuple[str, bool]] = set()
+    work = list(roots.items())
+    n_cls = 0
+    while work:
+        (cq, use_repr), site = work.pop()
+        for sub in prog.subclasses(cq):
+            if (sub, use_repr) in seen:
+                continue
+            seen.add((sub, use_repr))
+            ci = prog.classes.get(sub)
+            if ci is None or ci.module.name.startswith(EXCLUDED):
+                continue
+            kind, what = _text_function(prog, sub, use_repr)
+            n_cls += 1
+            loc = f"{ci.module.relpath}:{ci.node.lineno}"
+            if kind == "method":
+                # a source method: its own formatted values are further roots (set uses inside are decided by C20.R1)
+                m = what.module
+                for x in ast.walk(what.node):
+                    if isinstance(x, ast.FormattedValue):
+                        t = types.type_of(m, x.value)
+                        if t is not None:
+                            for cn in _all_class_names(types, t):
+                                if cn in prog.classes and (cn, x.conversion == ord("r")) not in seen:
+                                    work.append(((cn, x.conversion == ord("r")), site))
+                r.ok("C20.R5", sub, f"text comes from {what.qual} (reached from {site})", loc)
+                continue
+            if kind != "generated":
+                r.ok("C20.R5", sub, f"text of kind {kind} (reached from {site})", loc)
+                continue
+            bad = []
+            for fname, st in prog.dataclass_fields(sub).items():
+                if _field_opt(st, "repr") is False:
+                    continue
+                ann = unparse(st.annotation).replace('"', "").replace("'", "")
+                if _ann_is_set(st):
+                    bad.append((fname, st, "a set: printed in hash order"))
+                    continue
+                if "ProcessingPipeline" in ann and fname.startswith("_"):
+                    bad.append((fname, st, "a back-pointer to the whole pipeline: its text holds every item, including the randomly named '_cond_…' of add_condition"))
+                    continue
+                # follow the declared field type
+                for nm in set(n.id for n in ast.walk(ast.parse(ann, mode="eval")) if isinstance(n, ast.Name)) if _parsable(ann) else ():
+                    for tq in by_simple.get(nm, ()):
+                        if (tq, True) not in seen:
+                            work.append(((tq, True), site))
+            if bad:
+                for fname, st, why in bad:
+                    r.violation("C20.R5", sub, f"field {fname}: {short(st.annotation, 60)} is shown by the generated repr",
+                                f"{why}; the text of this object is interpolated into an error message ({site}), so the error record differs between processes", f"{ci.module.relpath}:{st.lineno}")
+            else:
+                r.ok("C20.R5", sub, f"generated repr shows no set or pipeline back-pointer (reached from {site})", loc)
+    r.analysed["C20.classes_with_text_in_messages"] = n_cls
+    r.floor("C20.R5", 30)
+
+
+def _parsable(s: str) -> bool:
+    try:
+        ast.parse(s, mode="eval")
+        return True
+    except SyntaxError:
+        return False
